@@ -27,12 +27,12 @@ type vRootRec struct {
 }
 
 var (
-	vc33Op   = [...]string{"op0", "op1", "op2", "op3", "op4", "op5"}
-	vc33Spf  = [...]string{"spf0", "spf1", "spf2", "spf3", "spf4", "spf5"}
-	vc33Fr   = [...]string{"frame0", "frame1", "frame2", "frame3", "frame4", "frame5"}
-	vc33Cr   = [...]string{"creator0", "creator1", "creator2", "creator3", "creator4", "creator5"}
-	vc33Tag  = [...]string{"tag0", "tag1", "tag2", "tag3", "tag4", "tag5"}
-	vc33Qf   = [...]string{"qframe0", "qframe1", "qframe2", "qframe3", "qframe4", "qframe5"}
+	vc33Op  = [...]string{"op0", "op1", "op2", "op3", "op4", "op5"}
+	vc33Spf = [...]string{"spf0", "spf1", "spf2", "spf3", "spf4", "spf5"}
+	vc33Fr  = [...]string{"frame0", "frame1", "frame2", "frame3", "frame4", "frame5"}
+	vc33Cr  = [...]string{"creator0", "creator1", "creator2", "creator3", "creator4", "creator5"}
+	vc33Tag = [...]string{"tag0", "tag1", "tag2", "tag3", "tag4", "tag5"}
+	vc33Qf  = [...]string{"qframe0", "qframe1", "qframe2", "qframe3", "qframe4", "qframe5"}
 )
 
 // verifC33: arbitrary sequence of nOps operations {AddRoot, GetFrameRoots, epoch switch}
@@ -47,7 +47,7 @@ func verifC33(nOps int) {
 	for i := 0; i < nOps; i++ {
 		switch sym.Choice(vc33Op[i], 3) {
 		case 0: // register a root for frames spf+1..frame
-			spf := idx.Frame(sym.Choice(vc33Spf[i], 2))          // 0..1
+			spf := idx.Frame(sym.Choice(vc33Spf[i], 2))            // 0..1
 			frame := spf + 1 + idx.Frame(sym.Choice(vc33Fr[i], 2)) // spf+1..spf+2
 			creator := idx.ValidatorID(1 + sym.Choice(vc33Cr[i], 2))
 			e := &dag.MutableBaseEvent{}
